@@ -32,10 +32,16 @@ static TABLE: Mutex<Option<HashMap<[u8; 32], FP>>> = Mutex::new(None);
 thread_local! {
     /// every result of a precomputed-table MSM made on this thread since `tap_start` (the verifier's residuals)
     static RESIDUALS: RefCell<Option<Vec<FP>>> = RefCell::new(None);
+    /// (static scalars, dynamic scalars, table size) of every precomputed-table MSM since `tap_start`
+    static MSM_INPUTS: RefCell<Vec<(Vec<Scalar>, Vec<Scalar>, usize)>> = RefCell::new(Vec::new());
 }
 
 pub fn tap_start() {
     RESIDUALS.with(|l| *l.borrow_mut() = Some(Vec::new()));
+    MSM_INPUTS.with(|l| l.borrow_mut().clear());
+}
+pub fn msm_inputs() -> Vec<(Vec<Scalar>, Vec<Scalar>, usize)> {
+    MSM_INPUTS.with(|l| l.borrow().clone())
 }
 pub fn tap_take() -> Vec<FP> {
     RESIDUALS.with(|l| l.borrow_mut().take().unwrap_or_default())
@@ -230,8 +236,13 @@ impl VartimePrecomputedMultiscalarMul for FPPre {
         K: IntoIterator<Item = Option<FP>>,
     {
         let pts: Option<Vec<FP>> = dp.into_iter().collect();
-        let mut r = msm(ss, self.0.iter());
-        r.axpy(&Scalar::ONE, &msm(ds, pts?));
+        let ss: Vec<Scalar> = ss.into_iter().map(|x| *x.borrow()).collect();
+        let ds: Vec<Scalar> = ds.into_iter().map(|x| *x.borrow()).collect();
+        if RESIDUALS.with(|l| l.borrow().is_some()) {
+            MSM_INPUTS.with(|l| l.borrow_mut().push((ss.clone(), ds.clone(), self.0.len())));
+        }
+        let mut r = msm(ss.iter(), self.0.iter());
+        r.axpy(&Scalar::ONE, &msm(ds.iter(), pts?));
         let r = r.norm();
         RESIDUALS.with(|l| {
             if let Some(v) = l.borrow_mut().as_mut() {
